@@ -3,7 +3,6 @@ import KaVerif.Model.Display
 -- STREAM fmt handleFmt
 -- STREAM display handleDisplay
 -- STREAM stringify handleStringify
--- STREAM reprf handleReprFloat
 namespace KaVerif.Driver
 open KaVerif KaVerif.Display
 
@@ -63,19 +62,13 @@ def handleFmt (payload : String) : String :=
      | _, _ => "bad-request")
   | _ => "bad-request"
 
-/-- `reprf <float bits>` → Python's `repr(float)` -/
-def handleReprFloat (payload : String) : String :=
-  match payload.trimAscii.toString.toNat? with
-  | some bits => "ok " ++ dispEscape (reprFloat (Float.ofBits (UInt64.ofNat bits)))
-  | none => "bad-request"
-
-/-- `display (req <N> <brackets 0|1> <intervalViaStringify 0|1> (names (cp…)…) <dval>)` -/
+/-- `display (req <N> <brackets 0|1> (names (cp…)…) <dval>)` -/
 def handleDisplay (payload : String) : String :=
   match Sexp.parse payload with
-  | some (.list [.atom "req", n, b, iv, names, v]) =>
-    (match n.int?, dispBool? b, dispBool? iv, dispNames? names, dispVal? v with
-     | some N, some br, some ivs, some nm, some dv => dispShow (displayResult nm N br ivs dv)
-     | _, _, _, _, _ => "bad-request")
+  | some (.list [.atom "req", n, b, names, v]) =>
+    (match n.int?, dispBool? b, dispNames? names, dispVal? v with
+     | some N, some br, some nm, some dv => dispShow (displayResult nm N br dv)
+     | _, _, _, _ => "bad-request")
   | _ => "bad-request"
 
 /-- `stringify (req <N> <brackets 0|1> (names (cp…)…) <dval>)` -/
